@@ -19,7 +19,7 @@ KNN_METRICS = sorted(n for n in M.NAMES if M.symmetric(n) and M.dissimilarity(n)
 
 
 @st.composite
-def knn_case(draw, nmax=10, kinds=("knn", "unsup"), nq=(0, 0), kmax_force=False, modes=("feat", "feat", "feat", "pre"), metrics=None, point_kinds=None):
+def knn_case(draw, nmax=10, kinds=("knn", "unsup"), nq=(0, 0), kmax_force=False, modes=("feat", "feat", "feat", "pre"), metrics=None, point_kinds=None, jitter=True):
     model = draw(st.sampled_from(list(kinds)))
     mode = draw(st.sampled_from(list(modes)))
     nt = draw(st.one_of(st.integers(3, min(nmax, 6)), st.integers(3, nmax), st.integers(min(7, nmax), nmax)))
@@ -68,6 +68,12 @@ def knn_case(draw, nmax=10, kinds=("knn", "unsup"), nq=(0, 0), kmax_force=False,
         dim = draw(st.integers(1, 3))
         m = nt + case["nv"] + n_q
         X = draw(gen.points(m, dim, kind))
+        if jitter and kind == "lattice" and draw(st.booleans()):
+            # jittered lattice: nearly (but not exactly) tied distances and densities
+            jit = draw(st.lists(st.lists(st.integers(-4, 4), min_size=dim, max_size=dim), min_size=m, max_size=m))
+            jscale = draw(st.sampled_from([0.0078125, 0.0009765625, 0.0001220703125]))
+            X = [[v + j_ * jscale for v, j_ in zip(p_, jr)] for p_, jr in zip(X, jit)]
+            case["pkind_jitter"] = True
         dup = draw(st.integers(0, 3))
         if dup == 0 and nt >= 4:  # duplicates inside the training set (possibly with different labels)
             X[1] = list(X[0])
@@ -87,7 +93,7 @@ class Run:
     pass
 
 
-def run(case, predict=True, record_criterion=True):
+def run(case, predict=True, record_criterion=True, need_symmetric=True):
     np = models.np()
     lib.setup()
     import opfython.math.general as g
@@ -146,7 +152,7 @@ def run(case, predict=True, record_criterion=True):
             return "not_finite_nonneg"
     for i in range(nt):
         for j in range(nt):
-            if r.D[i][j] != r.D[j][i]:
+            if need_symmetric and r.D[i][j] != r.D[j][i]:
                 return "asymmetric_by_rounding"
     Y = None if case.get("Y") is None else np.array(case["Y"], dtype=int)
     r.criterion = []
@@ -197,6 +203,7 @@ def run(case, predict=True, record_criterion=True):
         finally:
             del model._normalized_cut
     r.model = model
+    r.fit_args = {"Xtr": Xtr, "Y": Y, "I_tr": I_tr, "Xv": Xv, "I_v": I_v}
     r.state = models.node_state(model)
     r.adj_len = [len(nd.adjacency) for nd in model.subgraph.nodes]
     r.n_plateaus = [int(nd.n_plateaus) for nd in model.subgraph.nodes]
